@@ -18,6 +18,9 @@ pub enum OutMode {
     Link,
     /// the same plus the output on stdout: two outputs, status 207
     LinkBoth,
+    /// `ln -s <dir> $3`: the target is a symbolic link to an existing
+    /// directory (path relative to the target's directory)
+    LinkDir(String),
 }
 
 /// What a snapshot shows for a symbolic link that is a file of the project.
@@ -31,7 +34,10 @@ pub fn link_dest(arg1: &str) -> String {
 }
 
 impl OutMode {
-    pub fn name(&self) -> &'static str {
+    pub fn name(&self) -> String {
+        if let OutMode::LinkDir(d) = self {
+            return format!("linkdir:{}", d);
+        }
         match self {
             OutMode::Stdout => "stdout",
             OutMode::File => "file",
@@ -42,9 +48,14 @@ impl OutMode {
             OutMode::Append => "append",
             OutMode::Link => "link",
             OutMode::LinkBoth => "linkboth",
+            OutMode::LinkDir(_) => unreachable!(),
         }
+        .to_string()
     }
     pub fn parse(s: &str) -> OutMode {
+        if let Some(d) = s.strip_prefix("linkdir:") {
+            return OutMode::LinkDir(d.to_string());
+        }
         match s {
             "file" => OutMode::File,
             "both" => OutMode::Both,
